@@ -5,4 +5,5 @@ CONSTANTS Inputs = {}
  Results = {}
  ObjDigests = {}
  Correct = TRUE
+ CtxDep = FALSE
 CHECK_DEADLOCK FALSE
